@@ -358,23 +358,33 @@ def _find(node, *names):
 
 
 def _resync(enc, hdr: bytes, packpos: int) -> bytes:
-    """Re-encode the header through the EncodedHeader folder and refresh its sizes / CRCs."""
+    """Re-encode the header through the EncodedHeader folder and refresh its sizes / CRCs (best effort:
+    a hostile / incomplete EncodedHeader record is left as edited and the stale packed bytes are reused)."""
     st = enc["streams"]
-    folder = _find(st, "UnpackInfo", "Folder")["folders"][0]
+    fnode = _find(st, "UnpackInfo", "Folder")
+    if not fnode or not fnode.get("folders"):
+        return enc["packed"]
+    folder = fnode["folders"][0]
     cs = [{"method": c["id"], "props": c.get("props"), "nin": _v(c.get("nin", 1)), "nout": _v(c.get("nout", 1))}
           for c in folder["coders"]]
-    chain = chain_order(cs, [(_v(a), _v(b)) for a, b in folder["bindpairs"]])
+    try:
+        chain = chain_order(cs, [(_v(a), _v(b)) for a, b in folder["bindpairs"]])
+    except (FormatError, Unsupported):
+        chain = list(range(len(cs)))  # edited bind pairs: fall back to the conventional record order
     sizes, buf = [0] * len(cs), hdr
     for c in reversed(chain):  # encoding order is the reverse of the decode chain
         sizes[c] = len(buf)
         spec = coders.spec_from(cs[c]["method"], bytes.fromhex(cs[c]["props"] or ""))
         buf, _props = coders.encode(spec, buf, enc.get("password"))
     pack = _find(st, "PackInfo")
-    pack["packpos"] = packpos
-    _find(pack, "Size")["sizes"] = [len(buf)]
-    if _find(pack, "CRC") and _find(pack, "CRC")["crcs"]:
-        _find(pack, "CRC")["crcs"] = [crc32(buf)]
-    _find(st, "UnpackInfo", "CodersUnpackSize")["sizes"] = sizes
+    if pack:
+        pack["packpos"] = packpos
+        if _find(pack, "Size"):
+            _find(pack, "Size")["sizes"] = [len(buf)]
+        if _find(pack, "CRC") and _find(pack, "CRC")["crcs"]:
+            _find(pack, "CRC")["crcs"] = [crc32(buf)]
+    if _find(st, "UnpackInfo", "CodersUnpackSize"):
+        _find(st, "UnpackInfo", "CodersUnpackSize")["sizes"] = sizes
     d = _find(st, "UnpackInfo", "CRC")
     if d and d["crcs"]:
         d["crcs"] = [crc32(hdr)]
